@@ -193,6 +193,17 @@ element_gluevar(chars(Cs), N0, N) -->
 element_gluevar(glue(_,V), N, N) --> [V].
 element_gluevar(goal(G), N, N)   --> { G }.
 
+% total length of the text elements, once their goals have been run
+elements_width([], W, W).
+elements_width([E|Es], W0, W) :-
+        (   E = chars(Cs) ->
+            must_be(chars, Cs),
+            length(Cs, L),
+            W1 is W0 + L
+        ;   W1 = W0
+        ),
+        elements_width(Es, W1, W).
+
 /* - - - - - - - - - - - - - - - - - - - - - - - - - - - - - - - - - - - - -
    Our key datastructure is a list of cells and newlines.
    A cell has the shape cell(From,To,Elements), where
@@ -320,7 +331,8 @@ cells([~,'|'|Fs], Args, Tab0, Es, VNs) --> !,
             { length(Cs, Width),
               Tab is Tab0 + Width },
             cell(Tab0, Tab, Es)
-        ;   { G = (phrase(elements_gluevars(Es, 0, Width), _),
+        ;   % G runs after the goals of Es, which must not be run a second time
+            { G = (elements_width(Es, 0, Width),
                    Tab is Tab0 + Width) },
             cell(Tab0, Tab, [goal(G)|Es])
         ),
